@@ -91,6 +91,7 @@ impl CompactionWorker {
                 log::info!("Compaction thread initializing.");
                 let database_state = db_state;
                 let mut task_queue: VecDeque<TaskKind> = VecDeque::new();
+                let mut is_terminated = false;
 
                 loop {
                     log::info!("Compaction thread waiting for tasks.");
@@ -112,6 +113,7 @@ impl CompactionWorker {
                                     "Compaction thread received the termination command. \
                                     Shutting down the thread."
                                 );
+                                is_terminated = true;
                                 break;
                             }
                         }
@@ -149,7 +151,11 @@ impl CompactionWorker {
 
                     #[cfg(feature = "verif_hooks")]
                     crate::verif::point("worker.tasks_drained");
-                    if database_state.is_shutting_down.load(Ordering::Acquire) {
+                    // Only the termination command ends the thread. The shutdown flag alone must
+                    // not, because a compaction task that was scheduled just before the flag was
+                    // raised may still sit in the channel and `DB::drop` waits for it to be
+                    // acknowledged.
+                    if is_terminated {
                         log::info!("Compaction thread terminated.");
                         break;
                     }
